@@ -80,13 +80,14 @@ class Monitor:
     def __init__(self, ctx):
         self.ctx = ctx
         self.calls = 0
+        self.mode = None        # None | "deep" (skip the Fraction dyadic match) | "exact" (strict flatness)
 
     def post(self, s_p, flat, OLD):
         ctx = self.ctx
         nodes_before, copy = OLD.before
         ctx.count("monitor:subdivideCubicPath evaluated")
         witness = {"fn": "subdivideCubicPath", "nodes": copy, "flat": flat,
-                   "pieces_after": len(s_p) - 1}
+                   "pieces_after": len(s_p) - 1, "mode": self.mode}
         coords = [abs(v) for node in copy for pt in node for v in pt]
         scale = max(coords + [1e-300])
         eps = EPS_REL * Fraction(scale)
@@ -113,7 +114,7 @@ class Monitor:
                 return True
         # 2. dyadic restriction of each original piece
         total_pieces = 0
-        for k in range(len(copy) - 1):
+        for k in range(len(copy) - 1 if self.mode != "deep" else 0):
             exact = (F2(copy[k][1]), F2(copy[k][2]), F2(copy[k + 1][0]), F2(copy[k + 1][1]))
             a, b = where[k], where[k + 1]
             pieces = [(s_p[i][1], s_p[i][2], s_p[i + 1][0], s_p[i + 1][1]) for i in range(a, b)]
@@ -134,10 +135,18 @@ class Monitor:
         ctx.count("monitor:pieces matched against the dyadic tree", total_pieces)
         # 3. flatness of every resulting piece
         limit = (Fraction(flat) * (1 + EPS_REL)) ** 2
+        if self.mode == "exact":
+            # constructed small-integer / dyadic inputs: every float operation of the library is
+            # exact here, so "closer than the flatness" is decided strictly (distance == flatness fails)
+            limit = Fraction(flat) ** 2
+            ctx.count("monitor:strict flatness (exact arithmetic class) evaluated")
+        if self.mode == "deep":
+            ctx.count("monitor:deep subdivision evaluated (flatness, order and end nodes only)")
+            ctx.extra["max_pieces_in_one_call"] = max(ctx.extra.get("max_pieces_in_one_call", 0), len(s_p) - 1)
         for i in range(len(s_p) - 1):
             p0, p1, p2, p3 = s_p[i][1], s_p[i][2], s_p[i + 1][0], s_p[i + 1][1]
             for inner in (p1, p2):
-                if clearly(inner, p0, p3, flat) == "below":
+                if self.mode != "exact" and clearly(inner, p0, p3, flat) == "below":
                     continue
                 if dist2_exact(inner, p0, p3) >= limit:
                     witness.update(piece_index=i, piece=[list(map(float, p)) for p in (p0, p1, p2, p3)])
@@ -256,6 +265,64 @@ def gen_path(rng):
             if ratio < 1 else "flat/scale=1"], nodes, flat
 
 
+PYTH = [(3, 4, 5), (4, 3, 5), (5, 12, 13), (12, 5, 13), (8, 6, 10), (6, 8, 10), (0, 5, 5), (5, 0, 5), (0, 4, 4),
+        (4, 0, 4), (8, 15, 17), (7, 24, 25), (0, 1, 1), (1, 0, 1)]
+
+
+def gen_exact(rng):
+    """A path of small-integer control points in which one inner control point lies at a distance
+    EXACTLY equal to the flatness from its chord (beyond the far end, before the near end, or
+    perpendicular to the interior) - 'closer than the flatness' must be decided strictly."""
+    cx, cy, _cl = rng.choice(PYTH)
+    sx, sy = rng.choice((1, -1)), rng.choice((1, -1))
+    k = rng.choice((2, 4, 6))
+    chord = (cx * sx * k, cy * sy * k)
+    p0 = (rng.randint(-20, 20), rng.randint(-20, 20))
+    p3 = (p0[0] + chord[0], p0[1] + chord[1])
+    variant = rng.choice(("far end-cap", "near end-cap", "perpendicular"))
+    dx, dy, length = rng.choice(PYTH)
+    dx, dy = dx * rng.choice((1, -1)), dy * rng.choice((1, -1))
+    m = rng.choice((1, 2, 3))
+    dx, dy, length = dx * m, dy * m, length * m
+    on_chord = (p0[0] + chord[0] // 2, p0[1] + chord[1] // 2)
+    if variant == "far end-cap":
+        if dx * chord[0] + dy * chord[1] < 0:
+            dx, dy = -dx, -dy
+        p1, p2 = on_chord, (p3[0] + dx, p3[1] + dy)
+    elif variant == "near end-cap":
+        if dx * chord[0] + dy * chord[1] < 0:
+            dx, dy = -dx, -dy
+        p1, p2 = (p0[0] - dx, p0[1] - dy), on_chord
+    else:
+        # perpendicular offset of exact length from the chord's midpoint
+        px, py, plen = -cy * sy, cx * sx, _cl
+        p1, p2 = (on_chord[0] + px * m, on_chord[1] + py * m), on_chord
+        length = plen * m
+    off = rng.choice((0, 0, 0, 1, -1))           # exactly on the limit, or one unit either side
+    flat = length + off
+    if flat <= 0:
+        flat = length
+    if rng.random() < 0.5:                      # the mirror image: swap the roles of the two handles
+        p0, p1, p2, p3 = p3, p2, p1, p0
+    nodes = [[list(p0), list(p0), list(p1)], [list(p2), list(p3), list(p3)]]
+    if rng.random() < 0.4:                      # embedded in a longer path
+        q = [p3[0] + rng.randint(1, 9), p3[1] + rng.randint(1, 9)]
+        nodes.append([list(q), list(q), list(q)])
+    return ["exact arithmetic: control point at distance %s the flatness" %
+            ("exactly" if off == 0 else "just below" if off > 0 else "just above"), "exact:" + variant], nodes, float(flat)
+
+
+def gen_deep(rng):
+    """One arch whose first sub-piece needs more than 16 successive halvings."""
+    span = rng.choice((8192.0, 4096.0, 1000.0, 3.0))
+    height = span * rng.choice((0.25, 0.5, 1.0))
+    depth = rng.choice((17, 17, 18))
+    flat = 0.75 * height / 4 ** depth * rng.uniform(0.7, 1.3)
+    nodes = [[[0.0, 0.0], [0.0, 0.0], [span * rng.uniform(0.2, 0.4), height]],
+             [[span * rng.uniform(0.6, 0.8), height * rng.uniform(0.6, 1.0)], [span, 0.0], [span, 0.0]]]
+    return ["deep subdivision (> 16 successive halvings)"], nodes, flat
+
+
 def one_case(ctx, mon, nodes, flat):
     from plotink import plot_utils
     mon.calls = 0
@@ -285,6 +352,23 @@ def run(ctx):
         if ln <= 3:
             ctx.sample({"nodes": nodes, "flat": flat}, tag=classes[0], per_tag=1)
         one_case(ctx, mon, nodes, flat)
+    # constructed classes with their own monitor modes
+    for _ in range(ctx.budget(1500, 15000)):
+        classes, nodes, flat = gen_exact(rng)
+        ctx.case(classes, (tuple(tuple(tuple(pt) for pt in node) for node in nodes), flat))
+        ctx.sample({"nodes": nodes, "flat": flat}, tag=classes[1], per_tag=1)
+        mon.mode = "exact"
+        one_case(ctx, mon, nodes, flat)
+        mon.mode = None
+    for _ in range(ctx.budget(1, 3)):
+        if not ctx.alive():
+            break
+        classes, nodes, flat = gen_deep(rng)
+        ctx.case(classes, (tuple(tuple(tuple(pt) for pt in node) for node in nodes), flat))
+        mon.mode = "deep"
+        one_case(ctx, mon, nodes, flat)
+        mon.mode = None
+    ctx.extra["max_pieces_in_one_call"] = [ctx.extra.get("max_pieces_in_one_call", 0)]
     ctx.extra["max_depth_seen"] = [ctx.extra.get("max_depth_seen", 0)]
     for cls in ("already flat (handles on the chord)", "handles equal to their nodes (straight lines)",
                 "circular arcs", "S-curves", "loops (handles cross)", "cusps",
@@ -294,6 +378,11 @@ def run(ctx):
                 "flat/scale=1e-2..1e-1", "flat/scale=1e-1..1e0",
                 "outcome:piece subdivided", "outcome:piece left whole"):
         ctx.need(cls, 30)
+    for cls in ("exact arithmetic: control point at distance exactly the flatness", "exact:far end-cap",
+                "exact:near end-cap", "exact:perpendicular"):
+        ctx.need(cls, 100)
+    ctx.need("deep subdivision (> 16 successive halvings)", 1)
+    ctx.need("monitor:deep subdivision evaluated (flatness, order and end nodes only)", 1)
     ctx.need("monitor:subdivideCubicPath evaluated", 1_000)
     ctx.need("monitor:pieces matched against the dyadic tree", 30_000)
     ctx.need("monitor:pieces checked for flatness", 30_000)
@@ -304,5 +393,6 @@ def replay(ctx, rec):
     mon = install(ctx)
     w = rec["witness"]
     ctx.case(["replay"], None)
+    mon.mode = w.get("mode")
     one_case(ctx, mon, [[list(pt) for pt in node] for node in w["nodes"]], w["flat"])
     contracts.uninstall_all()
